@@ -1,5 +1,6 @@
 import CV.Model.Ans
 import CV.Model.TableModel
+import CV.Spec.RansSpec
 import CV.Driver.Util
 /-! Line protocol for the ANS coder: `ans W S | init | op | op …` -/
 namespace CV.Driver.Ans
@@ -166,6 +167,25 @@ def runOpsCursor (W S : Nat) (data : Option (List Nat)) : Coder → List (List S
     | some (y, out, dead) =>
       if dead then (out :: acc).reverse else runOpsCursor W S data y rest (out :: acc)
 
+/-- `ansspec` lines are answered by the reference specification, not by the Impl model -/
+def handleSpec (W S : Nat) (segs : List (List String)) : String :=
+  let rec go : List (List String) → List (Nat × Nat × Nat) → Option (List Nat) → Option (List (Nat × Nat × Nat) × Option (List Nat))
+    | [], acc, ex => some (acc.reverse, ex)
+    | ["enc", _, p, cum, pr] :: rest, acc, ex =>
+      match parseHex p, parseHex cum, parseHex pr with
+      | some P, some c, some r => go rest ((P, c, r) :: acc) ex
+      | _, _, _ => none
+    | ["expect", ws] :: rest, acc, _ => go rest acc (parseList ws)
+    | _, _, _ => none
+  match go segs [] none with
+  | none => "bad-op"
+  | some (syms, ex) =>
+    let out := RansSpec.words W S syms
+    let verdict := match ex with
+      | none => "-"
+      | some e => if e == out then "match" else "MISMATCH"
+    showList out ++ " " ++ verdict
+
 def handle (segs : List (List String)) : String :=
   match segs with
   | ["ans", w, s] :: init :: ops =>
@@ -175,6 +195,10 @@ def handle (segs : List (List String)) : String :=
       | some (x, out) =>
         if out == "err" then "err" else " | ".intercalate (runOps W S x ops [out])
       | none => "bad-op"
+    | _, _ => "bad-op"
+  | ["ansspec", w, s] :: ops =>
+    match parseHex w, parseHex s with
+    | some W, some S => handleSpec W S ops
     | _, _ => "bad-op"
   | ["ansc", w, s, cap] :: ops =>
     match parseHex w, parseHex s, parseHex cap with
